@@ -5,7 +5,7 @@ ALL = ["C%02d" % i for i in range(1, 21)]
 CHECKS = {
     "C15": dict(
         category="proof",
-        text="Coq theorems over all byte strings / all integers: parse = grammar of the property (sound and complete), format = canonical shortest numeral, round trip, rejection outside the supply; tied to the code by running the extracted model and api.StringToAmount / both AmountToString on the same generated inputs (exhaustive short strings + PRNG streams) on every run.",
+        text="Coq theorems over all byte strings / all integers: parse = grammar of the property (sound and complete), format = canonical shortest numeral, round trip, rejection outside the supply; tied to the code by running the extracted model and api.StringToAmount / both AmountToString on the same generated inputs (exhaustive short strings + PRNG streams, overflow and negative streams) on every run, and — the API layer's use of the conversions — the value field of every output of DecodeRawTransaction on multi-output transactions with boundary, negative and wrapping values against the model (one out-of-range output refuses the call).",
         design_ref="DESIGN.md section 5, C15",
         note="Trusted: Coq kernel, ExtrOcamlBasic extraction + OCaml driver glue, Go harness/generator, translator of MaxMass/MaxwellPerMass; Go library functions (strings.*, strconv.ParseInt, Uint128) are restated in Gallina, not verified. No axioms.",
         technique="Coq proof (round-trip / grammar equivalence) + extracted-model differential correspondence",
@@ -83,7 +83,7 @@ CHECKS["C18"] = dict(
 )
 CHECKS["C09"] = dict(
     category="proof",
-    text="Coq model of the pending side of the store (unmined transactions, unmined inputs with per-spender lists, unmined credits, pending game rows, the handler's volatile mempool set) wrapped around the C01 ledger, with 15 theorems: an accepted unconfirmed transaction is readable and flags every wallet coin it spends, flagged coins are never eligible, receiving changes nothing mined, settling equals mining unseen and removes the pending record, a confirmed conflict purges the conflicted transaction with all registered descendants (fuel bound proved), rolled-back transactions return readable with all inputs registered, and refutation witnesses for three repaired defects. Tied to the code by replaying generated histories (chains of pending transactions, duplicates, conflicts, confirms, reorgs, restarts) on the real WalletManager and the extracted model with all pending-side buckets compared key by key.",
+    text="Coq model of the pending side of the store (unmined transactions, unmined inputs with per-spender lists, unmined credits, pending game rows, the handler's volatile mempool set) wrapped around the C01 ledger, with 33 theorems: an accepted unconfirmed transaction is readable and flags every wallet coin it spends, flagged coins are never eligible, receiving changes nothing mined, settling equals mining unseen and removes the pending record, a confirmed conflict purges the conflicted transaction with all registered descendants (fuel bound proved), rolled-back transactions return readable with all inputs registered, and refutation witnesses for three repaired defects; plus the whole-history index invariant (in every state any history reaches, a readable pending transaction is registered under every wallet coin it spends, that coin is flagged and not eligible — the only exception being the non-wallet inputs of the recorded finding; every registration belongs to a pending spender; Rollback of any depth and every connect keep both), from which: whenever a relevant transaction confirms, every pending transaction sharing a wallet coin with it vanishes with its registered descendants and its coins are free again, in every reachable state; closed counterexample for a Rollback that overwrites the spender list. Tied to the code by replaying generated histories (chains of pending transactions, duplicates, conflicts incl. one delivered while its rival is still confirmed for the wallet because the node has switched forks, confirms, reorgs, restarts) on the real WalletManager and the extracted model with all pending-side buckets compared key by key.",
     design_ref="DESIGN.md section 5, C09",
     note="Trusted: Coq kernel (no axioms), ExtrOcamlBasic + driver, harness (sim/hist/pending.go), hooks VerifReceiveTx and the read-only bucket dumps; node mempool empty; the two p2p look-ups of proccessReceivedTx and the 1024-block expiry are not covered. Known findings stale-pending:foreign-input, stale-pending:unseen-parent; three defects repaired (626fe73, 0bc4560, and the Rollback record).",
     technique="Coq proof (per-operation invariants of the pending set, fuel bound for conflict removal) + extracted-model differential correspondence with bucket-level dumps",
